@@ -66,6 +66,32 @@ def check(ctx, text, source):
     except Exception as e:  # noqa
         ctx.count('ambient', 'C01:' + mt.exc_site(e))
         return
+    # The sentinels must be transparent: the same document rendered WITHOUT them has to give the same output once the
+    # sentinels are stripped.  A difference means that escaping depends on more than the token's own content (e.g. a
+    # memo keyed on the text only) - something the tainted rendering alone cannot see, because taint makes texts unique.
+    try:
+        try:
+            with cls() as r2:
+                plain_out = r2.render(mt.Document(text))
+        finally:
+            mt.reset()
+    except Exception as e:  # noqa
+        plain_out = None
+    if plain_out is not None:
+        stripped = out
+        for ch in latexscan.ALL_SENTINELS:
+            stripped = stripped.replace(ch, '')
+        if stripped != plain_out:
+            k = next((i for i, (a, b) in enumerate(zip(stripped, plain_out)) if a != b), min(len(stripped), len(plain_out)))
+            seg = plain_out[max(0, k - 1):k + 12]
+            ch = plain_out[k:k + 1]
+            if ch in '$#{}&_%^\\' and plain_out[k - 1:k] != '\\':
+                ctx.violation('unescaped-special-from-text', 'only without taint: char=%s (escaping depends on context)' % ch, case,
+                              observed=plain_out, with_taint_stripped=stripped, near=seg)
+                return
+            ctx.count('outcome', 'taint-not-transparent')
+        else:
+            ctx.count('outcome', 'taint transparent')
     stats = {}
     try:
         latexscan.scan(out, stats)
@@ -174,13 +200,18 @@ def latex_payload_doc(rng):
     def p():
         return ''.join(rng.choice(LATEX_ATOMS) for _ in range(rng.randint(1, 6)))
     t = rng.choice(workloads.TEMPLATES + ['{p}', '{p} {q}', '# {p}', '| {p} | {q} |\n|---|---|\n| {q} | {p} |', '```{p}\n{q}\n```', '`{p}`', '    {p}\n    {q}',
-                                          '![a]({p})', '[a]({p})', '<http://x/{p}>', '$ {p} $', '- {p}\n  - {q}', '> {p}\n> {q}'])
+                                          '![a]({p})', '[a]({p})', '<http://x/{p}>', '$ {p} $', '- {p}\n  - {q}', '> {p}\n> {q}',
+                                          # the same string verbatim and as text (context-dependent escaping)
+                                          '`{p}` and {p}', '{p} then `{p}` then **{p}**', '    {p}\n\n{p}', '```\n{p}\n```\n\n*{p}* [{p}](/u)', '| `{p}` | {p} |\n|---|---|'])
     return t.replace('{p}', p()).replace('{q}', p()) + '\n'
 
 
 def finalize(m, tier):
     inconclusive = []
     scan = m.c('scan')
+    if m.c('outcome').get('taint-not-transparent', 0):
+        inconclusive.append('%d rendering(s) differed with and without taint for a reason other than an unescaped special character'
+                            % m.c('outcome')['taint-not-transparent'])
     for need in ('tainted:RawText', 'url-arguments', 'verbatim:verb', 'verbatim:lstlisting', 'env:tabular', 'env:itemize', 'env:displayquote'):
         if scan.get(need, 0) < 20:
             inconclusive.append('%s observed only %d times' % (need, scan.get(need, 0)))
